@@ -127,6 +127,11 @@ def table_columns(res, name, src):
             except Exception as e:
                 res.violation(f'h04:column-error:{tname}.{col}', 'every column of every table is readable', {'ledger': name, 'table': tname, 'column': col}, f'{type(e).__name__}: {e}', None)
                 continue
+            if not isinstance(dt, type) and dt is not types.Any and not isinstance(dt, types.AnyType):
+                # renderers and numberify dispatch on the announced datatype with isinstance / __mro__: it has to be a class
+                res.violation(f'h04:column-dtype-not-a-class:{tname}.{col}', 'the announced datatype of a column is a class (isinstance on it is defined)',
+                              {'ledger': name, 'table': tname, 'column': col}, repr(dt), 'a class')
+                continue
             bad = [v for v in vals if not conforms(v, dt)]
             if bad:
                 res.violation(f'h04:column-dtype:{tname}.{col}', 'every column value is NULL or an instance of the announced datatype', {'ledger': name, 'table': tname, 'column': col},
@@ -216,10 +221,13 @@ def aggregates(res):
 def composite(res):
     """boolean connectives over non-boolean operands, and columns of subqueries (also with repeated output names): every value is
     NULL or an instance of the announced datatype (a bool column holds truth values, not the falsy operand)"""
-    cols = [('i', int), ('d', Decimal), ('s', str), ('t', datetime.date), ('b', bool)]
-    rows = [(1, D('1.5'), 'x', date(2024, 1, 1), True), (None, None, None, None, None), (0, D('0.00'), '', date(2023, 1, 1), False), (2, D('0'), 'y', date(2025, 1, 1), True)]
+    cols = [('i', int), ('d', Decimal), ('s', str), ('t', datetime.date), ('b', bool), ('j', int)]
+    rows = [(1, D('1.5'), 'x', date(2024, 1, 1), True, None), (None, None, None, None, None, 4), (0, D('0.00'), '', date(2023, 1, 1), False, None), (2, D('0'), 'y', date(2025, 1, 1), True, 9)]
     conn = make_conn(t=(cols, rows))
-    qs = ['SELECT i AND TRUE, d AND TRUE, s AND TRUE, TRUE AND i, i AND d AND s FROM #t', 'SELECT i OR FALSE, d OR FALSE, s OR FALSE, FALSE OR s, NOT i, NOT s FROM #t',
+    qs = ['SELECT i BETWEEN 0 AND j, i BETWEEN j AND 5, j BETWEEN i AND i, d BETWEEN 0 AND j FROM #t', 'SELECT i FROM #t WHERE i BETWEEN 0 AND j', 'SELECT s, sum(i) FROM #t GROUP BY s HAVING sum(i) BETWEEN 0 AND max(j)',
+          # aggregates over selections / groups in which every value is NULL: the zero (or NULL) of the announced type
+          'SELECT sum(d), sum(i), min(d), max(i), first(d), last(i), count(d) FROM #t WHERE i IS NULL', 'SELECT b, sum(d), sum(j) FROM #t GROUP BY b', 'SELECT sum(d) + 1, sum(d) FROM #t WHERE d IS NULL',
+          'SELECT i AND TRUE, d AND TRUE, s AND TRUE, TRUE AND i, i AND d AND s FROM #t', 'SELECT i OR FALSE, d OR FALSE, s OR FALSE, FALSE OR s, NOT i, NOT s FROM #t',
           'SELECT x, y FROM (SELECT i AND TRUE AS x, s OR FALSE AS y FROM #t)', 'SELECT s, t FROM (SELECT i, i, s, t FROM #t)', 'SELECT length(s), t FROM (SELECT d, d, s, t FROM #t)',
           'SELECT k, s FROM (SELECT i AS k, d AS k, s FROM #t)', 'SELECT sum(b), sum(i > 0), count(b) FROM #t', 'SELECT s, sum(i = 1) FROM #t GROUP BY s']
     for q in qs:
